@@ -519,6 +519,9 @@ type c06ConnCase struct {
 	Bad     c06Bad    `json:"bad"`
 	Junk    []byte    `json:"junk,omitempty"`
 	MaxRead int       `json:"maxRead,omitempty"`
+	// Glued: no prefix; the malformed packet sits in the same buffer directly behind the CONNACK, so the reader
+	// may hit it before Connect has returned
+	Glued bool `json:"glued,omitempty"`
 }
 
 func c06GenBad(rt *rapid.T) c06Bad {
@@ -621,6 +624,10 @@ func c06GenBad(rt *rapid.T) c06Bad {
 }
 
 func c06ConnRun(tb rapid.TB, c c06ConnCase) {
+	if c.Glued {
+		c06GluedRun(tb, c)
+		return
+	}
 	r := newBaseRig()
 	defer r.shutdown()
 	cc := c04Case{Handler: "on", Steps: c.Prefix, MaxRead: c.MaxRead}
@@ -711,8 +718,72 @@ func c06ConnRun(tb rapid.TB, c c06ConnCase) {
 	}
 }
 
+// c06GluedRun: CONNACK and a malformed packet arrive back to back.
+func c06GluedRun(tb rapid.TB, c c06ConnCase) {
+	r := newBaseRig()
+	defer r.shutdown()
+	r.peer.auto = func(p *bpeer, pk refPacket) {
+		if pk.Type == rtConnect {
+			p.log.add(1, "B-RAW", nil, "CONNACK + malformed:"+c.Bad.Class)
+			p.conn.peerSend(append(refEncode(refPacket{Type: rtConnAck}), c.Bad.Bytes...))
+			if c.Bad.Close {
+				p.conn.peerClose(false)
+			}
+		}
+	}
+	ctx, cancel := context.WithTimeout(context.Background(), 30*time.Second)
+	defer cancel()
+	_, cerr := r.cli.Connect(ctx, "verif-glued")
+	vCount("C06", true, vJSON(c), []string{"conn-glued:" + c.Bad.Class}, func() interface{} { return c })
+	done := r.cli.Done()
+	var idleSince time.Time
+	closed := false
+	vWaitUntil(30*time.Second, func() bool {
+		select {
+		case <-done:
+			closed = true
+			return true
+		default:
+		}
+		if r.conn.unread() == 0 {
+			if idleSince.IsZero() {
+				idleSince = time.Now()
+			} else if time.Since(idleSince) > 3*time.Second {
+				return true
+			}
+		} else {
+			idleSince = time.Time{}
+		}
+		return false
+	})
+	if !closed {
+		vFailf(tb, map[string]interface{}{"log": r.log.strings(40), "goroutines": vGoroutineDump()}, "a malformed packet (%s) directly behind CONNACK did not end the connection (Connect returned %v)", c.Bad.Class, cerr)
+	}
+	err := r.cli.Err()
+	if err == nil {
+		vFailf(tb, r.log.strings(40), "connection ended by a malformed packet (%s) directly behind CONNACK, but Err() is nil (Connect returned %v)", c.Bad.Class, cerr)
+	}
+	nClosed := 0
+	var closedErr error
+	for _, s := range r.stateLog() {
+		if s.State == StateClosed {
+			nClosed++
+			closedErr = s.Err
+		}
+	}
+	if nClosed != 1 {
+		vFailf(tb, r.log.strings(40), "state callback reported Closed %d times (want once)", nClosed)
+	}
+	if closedErr == nil || closedErr.Error() != err.Error() {
+		vFailf(tb, r.log.strings(40), "state callback Closed carried %v, Err() returns %v", closedErr, err)
+	}
+}
+
 func TestVerifC06_Connected(t *testing.T) {
-	vRun(t, "C06", vOpts{CurFile: true}, func(rt *rapid.T) c06ConnCase {
+	vRun(t, "C06", vOpts{CurFile: true, ReplayReps: 50}, func(rt *rapid.T) c06ConnCase {
+		if rapid.IntRange(0, 3).Draw(rt, "glued") == 0 {
+			return c06ConnCase{Bad: c06GenBad(rt), Glued: true}
+		}
 		return c06ConnCase{
 			Prefix:  c04GenSteps(rt, 8),
 			Bad:     c06GenBad(rt),
@@ -850,4 +921,45 @@ func TestVerifC06_InFlight(t *testing.T) {
 		}), 1, 8).Draw(rt, "answers")
 		return c
 	}, c06InFlightRun)
+}
+
+// ---------------------------------------------------------------------------
+// target 5: hostile broker content reaching the retrying client (state kept across reconnects)
+
+// TestVerifC06_ViaRetry: SUBACKs with failure / reserved return codes, garbage after a generated packet and
+// refused connections against the ReconnectClient with session-less reconnects afterwards: whatever the broker
+// sent must not crash the process later (e.g. when the subscriptions are restored) nor wedge the client.
+func TestVerifC06_ViaRetry(t *testing.T) {
+	vRun(t, "C06", vOpts{CurFile: true, ReplayReps: 5}, func(rt *rapid.T) e4Case {
+		o := e4GenOpts{MaxSteps: 8, QoSWeights: []int{1, 2, 2}, SubWeight: 14, MaxFaults: 2, Outages: false, PreConnect: true,
+			FilterPool: []string{"a", "b", "a/+"}, FaultKinds: []string{"cut", "cutType", "garbage"}, MaxConn: 3}
+		c := e4Case{Cfg: e4GenConfig(rt)}
+		c.Cfg.SessionKept = false
+		c.Cfg.GrantMax = 0
+		c.Steps = e4GenSteps(rt, o)
+		c.Faults = e4GenFaults(rt, o)
+		n := rapid.IntRange(1, 3).Draw(rt, "nHostile")
+		for i := 0; i < n; i++ {
+			c.Faults = append(c.Faults, e4Fault{Kind: "hostileSuback", Conn: rapid.IntRange(1, 3).Draw(rt, "hconn"), Nth: rapid.IntRange(1, 3).Draw(rt, "hnth"),
+				Code: rapid.SampledFrom([]int{0x80, 0x03, 0x7F, 0xFF, 0x04}).Draw(rt, "hcode")})
+		}
+		// a session-less reconnect after the hostile answers, so that the remembered subscriptions are restored
+		c.Steps = append(c.Steps, e4Step{Kind: "settle"}, e4Step{Kind: "cutNow"}, e4Step{Kind: "settle"}, e4Step{Kind: "cutNow"})
+		return c
+	}, func(tb rapid.TB, c e4Case) {
+		e4Check(tb, "C06", c, func(r *e4Result) string {
+			if r.Stuck {
+				return "after hostile broker answers the client is idle with work undone: " + e4Undone(r)
+			}
+			return ""
+		}, func(r *e4Result) (bool, []string) {
+			hostile := false
+			for _, f := range r.Fired {
+				if len(f) > 7 && f[:7] == "hostile" {
+					hostile = true
+				}
+			}
+			return hostile, []string{"via-retry-client"}
+		})
+	})
 }
